@@ -11,7 +11,7 @@ ASSUMPTIONS = ["input lines ascending and non-overlapping (a well-formed memory 
                "inside aggregate, is_mapping_a_path is replaced by a byte-loop 'contains a slash' reference (std's memchr on the merged name pointer exhausts memory); the real function is proved equal to the reference in c13_is_path_eq_*",
                "MemoryMaps built by transmuting Vec<MemoryMap> (the struct is #[non_exhaustive])"]
 L = {"RawIterRange": 2, "drop_elements": 2, "simd_bitmask": 2, "memchr": 16, "memcmp": 16, "compare_bytes": 16, "naive_is_path": 16, "is_mapping_a_path": 16}
-def A(n, d, tier="quick", t=1800, **kw): return H("c13_aggregate::" + n, loops=L, desc=d, tier=tier, timeout=t, est_gb=14, mem_gb=30, **kw)
+def A(n, d, tier="quick", t=1800, **kw): return H("c13_aggregate::" + n, loops=L, desc=d, tier=tier, timeout=t, est_gb=20, mem_gb=30, **kw)
 NM = ("a merge happened",)
 NN = ("no merge happened",)
 LE = {"memchr": 34, "naive_is_path": 34, "is_mapping_a_path": 34}
